@@ -1263,7 +1263,7 @@ pub fn gen_yield_after_lock(rng: &mut Rng) -> Program {
 pub fn gen_trylock_no_handover(rng: &mut Rng) -> Program {
     let mut vs = ValueSrc::new();
     let use_rw = rng.chance(1, 3);
-    let mut p = Program { atomics: vec![0, 0], n_mutex: 1, n_rwlock: if use_rw { 1 } else { 0 }, n_cell: 1, ..Default::default() };
+    let mut p = Program { atomics: vec![0], n_mutex: 1, n_rwlock: if use_rw { 1 } else { 0 }, n_cell: 1, n_chan: 1, ..Default::default() };
     let flag = vs.constant();
     let (lock, unlock, try_, hold, release): (Op, Op, Op, Op, Op) = if use_rw {
         (Op::WLock { l: 0 }, Op::WUnlock { l: 0 }, if rng.chance(1, 2) { Op::TryRLock { l: 0 } } else { Op::TryWLock { l: 0 } }, Op::WLock { l: 0 }, Op::WUnlock { l: 0 })
@@ -1273,7 +1273,9 @@ pub fn gen_trylock_no_handover(rng: &mut Rng) -> Program {
     let flag_ord = if rng.chance(2, 3) { MO::Rlx } else { MO::Rel };
     let writer = vec![Op::CWrite { c: 0, v: vs.constant() }, lock, unlock, Op::Store { a: 0, v: flag, o: flag_ord }];
     // (a scheduling point inside the critical section, so that the observer can run meanwhile)
-    let holder = vec![hold, Op::Store { a: 1, v: vs.constant(), o: MO::Rlx }, Op::Load { a: 1, o: MO::Rlx }, release];
+    // (the holder blocks inside its critical section until the observer has made its attempt:
+    // loom only runs another thread inside a critical section if the holder cannot continue, K6)
+    let holder = vec![hold, Op::Recv { c: 0 }, release];
     let wait_ord = if flag_ord == MO::Rel && rng.chance(1, 2) { MO::Acq } else { MO::Rlx };
     let access = if rng.chance(1, 2) { Op::CRead { c: 0 } } else { Op::CWrite { c: 0, v: vs.constant() } };
     // (a successful attempt is released again)
@@ -1282,18 +1284,21 @@ pub fn gen_trylock_no_handover(rng: &mut Rng) -> Program {
         Op::TryWLock { l } => Op::WUnlock { l },
         _ => Op::Unlock { m: 0 },
     };
-    let observer = vec![Op::Await { a: 0, o: wait_ord, v: flag }, try_, Op::If { pc: 1, eq: 0, then: Box::new(access) }, Op::If { pc: 1, eq: 1, then: Box::new(undo) }];
-    let mut threads = vec![writer, holder, observer];
-    rng.shuffle(&mut threads);
-    let mut t0 = Vec::new();
-    for i in 0..3 {
-        t0.push(Op::Spawn { t: (i + 1) as u8 });
-    }
-    for i in 0..3 {
-        t0.push(Op::Join { t: (i + 1) as u8 });
-    }
-    p.threads = vec![t0];
-    p.threads.extend(threads);
+    let observer = vec![
+        Op::Await { a: 0, o: wait_ord, v: flag },
+        try_,
+        Op::If { pc: 1, eq: 0, then: Box::new(access) },
+        Op::If { pc: 1, eq: 1, then: Box::new(undo) },
+        Op::Send { c: 0, v: vs.constant() },
+    ];
+    // main is the writer: the observer is started before it writes (no happens-before from the
+    // write), the holder after it has released the lock (no contention with the writer)
+    let mut t0 = vec![Op::Spawn { t: 1 }];
+    t0.extend(writer);
+    t0.push(Op::Spawn { t: 2 });
+    t0.push(Op::Join { t: 1 });
+    t0.push(Op::Join { t: 2 });
+    p.threads = vec![t0, observer, holder];
     p
 }
 
